@@ -53,8 +53,13 @@ StepN(M, st) ==
         /\ \/ st.act.a = "start"
            \/ /\ lossT(p) >= 0 /\ now - lossT(p) >= MCfg.peers[p].rwait
               /\ ~(lossD(p) /\ ~MCfg.peers[p].always)
+      \* the monitor's own account of "already has a connection": a connection through its exchange that identified itself as p
+      \* (or was dialled to p), not ended by DPR / DPA / close - whatever the node's own peer record says
+      hasLive(p) == \E c \in CIds : M0.rdy[c] /\ ~M0.gone[c] /\ ~IsClosed(sn, c) /\ M0.peer[c] = p /\
+                                      ~\E j \in 1..Len(out) : out[j].ev = "sock_close" /\ out[j].c = c
       vDial == UNION {(IF Len(dials(p)) > 0 /\ ~MCfg.peers[p].persistent THEN {"non_persistent_peer_dialled"} ELSE {}) \cup
                       (IF Len(dials(p)) > 0 /\ MCfg.peers[p].persistent /\ ~okDial(p) THEN {"dial_against_reconnect_policy"} ELSE {}) \cup
+                      (IF Len(dials(p)) > 0 /\ hasLive(p) /\ ~(feed /\ M0.peer[c0] = p) THEN {"dialled_although_peer_has_a_connection"} ELSE {}) \cup
                       (IF Len(dials(p)) > 1 THEN {"dialled_twice_in_one_check"} ELSE {})
                       : p \in MPeers}
       \* (c) a due reconnect is not skipped (one wake-up period + 1 s of slack)
